@@ -81,6 +81,10 @@ SEEDS = {
     "C19h": ("C19", "weighted_median's exactly-half tolerance scaled by log2(n) instead of n", "even length >= ~110 with a common non-dyadic weight and distinct middle values", "missed", "C19 now draws vectors of 100..3001 values for the weighted estimators, equal weights from ten constants"),
     "C20h": ("C20", "merge_samples compares bin coordinates with np.allclose", "a later sample whose bins differ by 1 bp at coordinates >= 1e5", "missed", "C20 now places the shared bins of a jtv/cdt case at 2.4e8 or 2^31+7 on a third of the cases"),
 
+    "C01h": ("C01", "do_call casts cn / cn1 with astype(np.int32)", "r*2^log2/purity >= 2^31 (e.g. ploidy 2 with log2 = 30, inside the stated [-30, 30])", "caught", None),
+    "C05h": ("C05", "load_sample_block compares start/end with np.allclose(rtol=1e-9, atol=0)", "bin coordinates >= 1e9 and a later coverage file whose start or end is off by 1..4 bp", "missed", "C05 now places FASTA-less panels at 2.4e8 / 2^31+7 (negative cohorts also at 2^32+11)"),
+    "C11h": ("C11", "by_arm measures the centromere gap start-to-start (np.diff of the starts)", "bins of >= 1e5 bases on a chromosome of >= 102 bins", "missed", "C11 now scales the bin sizes by 1, 60 or 250 (low-pass WGS-sized bins)"),
+    "C17h": ("C17", "z_prob computes the two-sided tail as 2*(1 - cdf(|z|))", "a bin more than ~8.3 sd from its segment mean (p below 1e-16)", "missed", "C17 now compares the adjusted p-values relatively (1e-7) and draws alphas of 1e-16 and 1e-40"),
 }
 
 
